@@ -27,6 +27,12 @@ CLAIMS = {
         tech="TLA+ Ref monitor + TLC model checking + trace validation of replayed and random operation sequences",
         ref="DESIGN.md 4 C18"),
 }
+CLAIMS['C01'] = dict(text='TLC checks the implementation-shaped dispatcher model H1Conn (decode-ahead, codec payload state, parse-error handling) against the framing clauses of the monitor H1Ref for a malformed head or chunk at each position; the environment histories of all terminal states are replayed on the real HttpService over a scripted socket, together with directed families (every malformed class at positions 1-3, cut at every framing boundary / every byte offset in the thorough tier, 1-byte reads) and seeded random pipelines, and every recorded execution is validated by TLC against H1Ref (requests reaching the service equal the sent ones, exact bodies, 4xx + close for malformed input, nothing dispatched after the rejection point).', note='Trusted: the harness (scripted socket, wake-driven executor, client-side response parser per RFC 7230 3.3.3), the request/byte generator lib/h1gen.py whose own description of what it sent is the ground truth; H1Conn abstracts bytes to units and has no timers; verdicts come only from the H1Ref monitor over observable events.', tech='TLA+ Ref monitor (H1Ref) + TLC model checking of the dispatcher model H1Conn against it + replay of TLC-generated scripts on the real dispatcher + TLC trace validation of recorded executions', ref='DESIGN.md 4 C01')
+CLAIMS['C02'] = dict(text='TLC explores H1Conn over all mixes of 2-3 pipelined GET/HEAD x HTTP/1.0/1.1 x Connection options x handler delay x response body kinds and checks every response event against H1Ref (one per request, in order, version/length/connection headers a function of its own request and response, body faithful, failed bodies never complete-looking); all terminal scripts are replayed on the real dispatcher and validated, plus seeded random programs (sized/stream/custom bodies with empty chunks, short/long/erroring bodies, user framing headers).', note='Trusted: the harness (scripted socket, wake-driven executor, client-side response parser per RFC 7230 3.3.3), the request/byte generator lib/h1gen.py whose own description of what it sent is the ground truth; H1Conn abstracts bytes to units and has no timers; verdicts come only from the H1Ref monitor over observable events.', tech='TLA+ Ref monitor (H1Ref) + TLC model checking of the dispatcher model H1Conn against it + replay of TLC-generated scripts on the real dispatcher + TLC trace validation of recorded executions', ref='DESIGN.md 4 C02')
+CLAIMS['C03'] = dict(text='H1Conn with request bodies (sized/chunked), consumers that read none/all and drop or hold the payload, close requested by either side; H1Ref clauses CloseIsFinal (nothing written or dispatched after a closing response or an error response) and NoReparse (every dispatched request equals the next sent one). Scripts replayed and validated as for C02.', note='Trusted: the harness (scripted socket, wake-driven executor, client-side response parser per RFC 7230 3.3.3), the request/byte generator lib/h1gen.py whose own description of what it sent is the ground truth; H1Conn abstracts bytes to units and has no timers; verdicts come only from the H1Ref monitor over observable events.', tech='TLA+ Ref monitor (H1Ref) + TLC model checking of the dispatcher model H1Conn against it + replay of TLC-generated scripts on the real dispatcher + TLC trace validation of recorded executions', ref='DESIGN.md 4 C03')
+CLAIMS['C04'] = dict(text="H1Conn with write budgets 0/1/unlimited and the invariant NoStall (an idle, unwoken, running connection has no possible work); replay under a wake-driven executor that polls only when the task's waker fired, with a spurious-wake probe after every environment step (progress on a spurious poll = lost wake-up), exactly-once delivery judged by the independent response parser, and termination after the epilogue (all bytes, EOF, unlimited budget, all tokens, time).", note='Trusted: the harness (scripted socket, wake-driven executor, client-side response parser per RFC 7230 3.3.3), the request/byte generator lib/h1gen.py whose own description of what it sent is the ground truth; H1Conn abstracts bytes to units and has no timers; verdicts come only from the H1Ref monitor over observable events.', tech='TLA+ Ref monitor (H1Ref) + TLC model checking of the dispatcher model H1Conn against it + replay of TLC-generated scripts on the real dispatcher + TLC trace validation of recorded executions', ref='DESIGN.md 4 C04')
+CLAIMS['C05'] = dict(text='Memory accounting clauses of H1Ref (input held beyond the read buffer + read-ahead bound, response bytes buffered beyond write-buffer size + one chunk, live heap beyond a configuration-derived bound) evaluated on Mem observations of directed scenarios, each at input size X and 4X: huge bodies against a stuck or slow consumer, endless heads, thousands of pipelined requests against a stuck handler or stuck socket, big streaming responses against a slow socket, several h1_write_buffer_size values; the dispatcher model H1Conn supplies the schedule skeletons.', note='Trusted: the harness (scripted socket, wake-driven executor, client-side response parser per RFC 7230 3.3.3), the request/byte generator lib/h1gen.py whose own description of what it sent is the ground truth; H1Conn abstracts bytes to units and has no timers; verdicts come only from the H1Ref monitor over observable events. Heap is a measured quantity (counting allocator), not something TLA+ decides; buffer sizes are not modelled in H1Conn.', tech='TLA+ Ref monitor (H1Ref) + TLC model checking of the dispatcher model H1Conn against it + replay of TLC-generated scripts on the real dispatcher + TLC trace validation of recorded executions', ref='DESIGN.md 4 C05')
+CLAIMS['C06'] = dict(text='Timing clauses of H1Ref over virtual-time stamped observations (408 only and always after the head deadline, idle keep-alive connection closed at the deadline and not before, shutdown bounded by the disconnect timeout, graceful signal: in-flight answered with close, nothing new dispatched) on directed schedules that place each arrival/tick/signal before, at and after every deadline for all timer configurations (including disabled), under a paused clock.', note='Trusted: the harness (scripted socket, wake-driven executor, client-side response parser per RFC 7230 3.3.3), the request/byte generator lib/h1gen.py whose own description of what it sent is the ground truth; H1Conn abstracts bytes to units and has no timers; verdicts come only from the H1Ref monitor over observable events. Clock granularity: 600 ms slack (500 ms cached clock + one slice).', tech='TLA+ Ref monitor (H1Ref) + TLC model checking of the dispatcher model H1Conn against it + replay of TLC-generated scripts on the real dispatcher + TLC trace validation of recorded executions', ref='DESIGN.md 4 C06')
 NA_REASON = "check not built yet in this round (planned; see DESIGN.md section 4)"
 NA = {}
 
